@@ -234,6 +234,43 @@ func Verif_C01_ageing_step() {
 	verifapi.Assert("no-lock-left-held", verifapi.HeldLocks() == 0)
 }
 
+// Verif_C01_silent_link_detected: a link that fails silently - the session stays open and accepts
+// every Send, but nothing is received on it any more - is timed out by the idle monitor although this
+// node keeps writing its periodic updates to it: after the real protoWriter has written any number of
+// messages at arbitrary instants, a monitor pass made later than the idle limit after the last
+// RECEPTION cancels the connection.
+func Verif_C01_silent_link_detected() {
+	n := verifNetceptor("A")
+	s := n.s
+	cb := n.verifConn("B", 1)
+	last := verifapi.Int64() // instant of the last reception on the link
+	verifapi.Assume(verifapi.All(last > 0, last < 1<<60))
+	t0 := time.Unix(0, last)
+	cb.lastReceivedData = t0
+	sess := verifNewSession(nil)
+	go cb.protoWriter(sess)
+	go s.monitorConnectionAging()
+	verifapi.Quiesce()
+	writes := 0
+	for i := 0; i < 3; i++ {
+		if verifapi.Bool() {
+			cb.WriteChan <- []byte{MsgTypeRoute, byte(i)}
+			writes++
+			verifapi.Quiesce()
+		}
+	}
+	verifapi.Assert("writes-went-out-on-the-open-session", len(*sess.sent) == writes)
+	t1 := time.Now()
+	verifapi.Assume(t1.Sub(t0) > s.maxConnectionIdleTime)
+	verifapi.AdvanceTime(5 * time.Second)
+	verifapi.Quiesce()
+	verifapi.Cover("monitor-pass-after-idle-limit")
+	verifapi.Assert("silent-link-timed-out-despite-our-own-writes", cb.Context.Err() != nil)
+	s.cancelFunc()
+	verifapi.Quiesce()
+	verifapi.Assert("no-lock-left-held", verifapi.HeldLocks() == 0)
+}
+
 // Verif_C01_restarted_node_followed: a node that restarts announces a newer epoch and starts its
 // sequence numbers again from a low value. Whatever was recorded about its previous run (arbitrary
 // epoch/sequence), its updates of the new run are all followed, in order: after the second update of
